@@ -315,7 +315,8 @@ class Ctx:
         """Exclude the input class of a *listed* known finding (known_findings.json); a finding that
         is not listed excludes nothing."""
         from vf import common
-        if finding_id in common.active_findings():
+        if finding_id in common.active_findings() or (
+                finding_id.startswith("NOT-PROVED:") and finding_id[11:] in {u["id"] for u in common.unproved_classes()}):
             self.known_used.add(finding_id)
             self.assume(z3.Not(pred) if not isinstance(pred, bool) else (not pred))
             if not self.path_feasible():
